@@ -8,7 +8,9 @@ import (
 	"io"
 	"strings"
 
+	"github.com/cockroachdb/errors"
 	"github.com/cockroachdb/pebble/internal/verif/vlib"
+	"github.com/cockroachdb/pebble/record"
 )
 
 var patterns19 = []string{"xor01", "xor80", "xorff", "zerochunk", "zeropage"}
@@ -93,8 +95,8 @@ func damage19(l *logImg, off int, pat string) (img []byte, lo, hi int, ok bool) 
 //	stopped-before-damage the log ended before the first damaged chunk
 //	F2-eof-trailer-spoof  silent end; the only change is that the log-number field of a record-first
 //	                      chunk now reads logNum+1, and the reader answered io.EOF
-//	F1-readahead-same-block silent end; later intact chunks prove the damaged chunk had been synced,
-//	                      but all of them lie in the block of the damaged chunk
+//	F1-readahead-same-block the reader answered ErrUnexpectedEOF; later intact chunks prove the damaged
+//	                      chunk had been synced, but all of them lie in the block of the damaged chunk
 //	silent-truncation     silent end although a later BLOCK holds an intact proving chunk
 //
 // "Silent end" = io.EOF or ErrUnexpectedEOF (replayWAL ends the most recent WAL cleanly on both);
@@ -102,6 +104,9 @@ func damage19(l *logImg, off int, pat string) (img []byte, lo, hi int, ok bool) 
 func verdict19(l *logImg, off int, pat string, lo, hi int, img []byte, res readRes) (class, desc, outcome string, obligation bool) {
 	if res.Panic != "" {
 		return "panic", "reader panicked: " + res.Panic, "panic", false
+	}
+	if res.Bad != "" && res.Partial {
+		return "partial-record", res.Bad, "partial", false
 	}
 	if res.Bad != "" {
 		return "foreign-record", res.Bad, "foreign", false
@@ -161,7 +166,7 @@ func verdict19(l *logImg, off int, pat string, lo, hi int, img []byte, res readR
 		off >= d.Off+7 && off < d.Off+11 && binary.LittleEndian.Uint32(img[d.Off+7:]) == l.LogNum+1 && res.Err == io.EOF && res.N == d.Rec {
 		return "F2-eof-trailer-spoof", "log-number field of a record-first chunk reads logNum+1 -> clean io.EOF before the checksum is looked at; " + what, "F2", true
 	}
-	if len(later) == 0 {
+	if len(later) == 0 && errors.Is(res.Err, record.ErrUnexpectedEOF) {
 		return "F1-readahead-same-block", "read-ahead starts at the next block; " + what, "F1", true
 	}
 	return "silent-truncation", what, "silent", true
@@ -197,10 +202,10 @@ func specs19(thorough bool) []spec19 {
 		add(6, small4[d[0]], small4[d[1]], small4[d[2]], small4[d[3]])
 	})
 	// logs crossing the block boundary (proof can lie in a later block)
-	add(6, blockSize-19-60, 10, 20, 5)       // small records on both sides, one split over the boundary
+	add(6, blockSize-19-60, 10, 20, 5)          // small records on both sides, one split over the boundary
 	add(6, blockSize-19-120, 10, 20, 30, 40, 5) // three small records, 3 bytes of padding, then block 1
-	add(6, blockSize-19, 10, 20, 30)         // block 0 filled exactly by one chunk
-	add(6, 10, 33000, 20, 30)                // record > 32 KiB spanning blocks 0 and 1
+	add(6, blockSize-19, 10, 20, 30)            // block 0 filled exactly by one chunk
+	add(6, 10, 33000, 20, 30)                   // record > 32 KiB spanning blocks 0 and 1
 	add(6, 33000, 10, 20, 30)
 	if thorough {
 		add(6, 10, 20, 33000, 30, 5)
@@ -271,6 +276,24 @@ func replay19(c *vlib.Ctx, cs Case) {
 	}
 	if cs.Kind == "writer" {
 		writerChecks19(c, l, cs)
+		return
+	}
+	if strings.HasPrefix(cs.Kind, "db:") {
+		fx, err := buildDBFixture()
+		if err != nil {
+			fmt.Println("fixture:", err)
+			return
+		}
+		fmt.Printf("DB fixture: WAL %s rewritten as %s\n", fx.walName, fx.log)
+		for _, ch := range fx.log.Chunks {
+			fmt.Println("  ", ch)
+		}
+		fmt.Printf("damage: %s at offset %d\n", cs.Kind, cs.Off)
+		class, desc, outcome, obl, ok := runDB19(fx, cs.Off, strings.TrimPrefix(cs.Kind, "db:"), true)
+		fmt.Printf("applicable: %v; outcome: %s; must-report obligation: %v\nverdict: class=%q %s\n", ok, outcome, obl, class, desc)
+		if class != "" {
+			c.Violation(class, desc, cs)
+		}
 		return
 	}
 	fmt.Printf("damage: %s at offset %d\n", cs.Kind, cs.Off)
@@ -353,6 +376,8 @@ func check19(c *vlib.Ctx) {
 	})
 	if !complete {
 		c.Incomplete(fmt.Sprintf("budget expired after %d of %d (log, offset, pattern) cases", done, len(cases)))
+	} else {
+		dbStage19(c)
 	}
 	var names []string
 	for _, sp := range specs {
